@@ -70,9 +70,12 @@ func (x *Explorer) rebuild(path []Ev) *Chain {
 }
 
 func (x *Explorer) visit(path []Ev, depth int) {
+	if depth >= x.cfg.MaxDepth || x.Edges >= x.maxEd {
+		return
+	}
 	c := x.rebuild(path)
 	st := c.Project()
-	if depth >= x.cfg.MaxDepth || st.Height > x.cfg.MaxH || x.Edges >= x.maxEd {
+	if st.Height > x.cfg.MaxH {
 		return
 	}
 	key := stateKey(st)
@@ -95,7 +98,7 @@ func (x *Explorer) visit(path []Ev, depth int) {
 			continue
 		}
 		x.Edges++
-		nst := child.Project()
+		nst := x.rec.Last // (the step's last line carries the state reached)
 		k := stateKey(nst)
 		if k == key && x.rec.Lines == before+1 {
 			x.Rejects++ // nothing changed (a rejected message): the last line still shows this node's state
